@@ -1,6 +1,7 @@
 (* Property C08, WKT part: the token-level parser of Model/WKT.v (the transcription of
    geom/wkt_parser.go written for C05) is total on EVERY token list: never a panic outcome, the
-   fuel error is unreachable, and the tokens left over are a suffix of the input.  Same technique
+   fuel error is unreachable, the tokens left over are a suffix of the input, and the consumed
+   tokens never include the lexical-error mark TBad (the parser cannot step over it).  Same technique
    as Proofs/WKB_total.v: one invariant over parser computations closed under bind; the
    separator loops terminate because every iteration consumes its "," token. *)
 From Coq Require Import NArith List Bool Ascii Lia.
@@ -9,18 +10,18 @@ Import ListNotations.
 
 Definition okT {A} (k : nat) (m : TM A) (ts : list tok) : Prop :=
   match m ts with
-  | Ok (_, r) => exists used, ts = used ++ r /\ (k <= length used)%nat
+  | Ok (_, r) => exists used, ts = used ++ r /\ (k <= length used)%nat /\ ~ In TBad used
   | Err e => e <> EFuel
   | Panic _ => False
   end.
 
 Lemma okT_weaken {A} k k' (m : TM A) ts : (k' <= k)%nat -> okT k m ts -> okT k' m ts.
 Proof.
-  unfold okT. destruct (m ts) as [[a r]|e|p]; auto. intros H [u [E L]]. exists u. split; auto. lia.
+  unfold okT. destruct (m ts) as [[a r]|e|p]; auto. intros H [u [E [L B]]]. exists u. split; auto. split; [lia|exact B].
 Qed.
 
 Lemma okT_ret {A} (a : A) ts : okT 0 (tret a) ts.
-Proof. unfold okT, tret. exists []. split; auto. Qed.
+Proof. unfold okT, tret. exists []. split; [reflexivity|]. split; [apply le_n|intros []]. Qed.
 
 Lemma okT_fail {A} e ts : e <> EFuel -> okT (A:=A) 0 (tfail e) ts.
 Proof. unfold okT, tfail. auto. Qed.
@@ -31,12 +32,13 @@ Lemma okT_bind {A B} k1 k2 (m : TM A) (f : A -> TM B) ts :
   okT (k1 + k2) (tbind m f) ts.
 Proof.
   unfold okT at 1 3, tbind. destruct (m ts) as [[a r]|e|p] eqn:E; auto.
-  intros [u [Eu Lu]] Hf.
+  intros [u [Eu [Lu Bu]]] Hf.
   assert (Hlen : (length r + k1 <= length ts)%nat) by (rewrite Eu, app_length; lia).
   specialize (Hf a r eq_refl Hlen). unfold okT in Hf.
   destruct (f a r) as [[b r']|e|p]; auto.
-  destruct Hf as [u2 [Eu2 Lu2]]. exists (u ++ u2).
-  rewrite Eu, Eu2, app_assoc, app_length. split; auto. lia.
+  destruct Hf as [u2 [Eu2 [Lu2 Bu2]]]. exists (u ++ u2).
+  rewrite Eu, Eu2, app_assoc, app_length. split; auto. split; [lia|].
+  intros Hin. apply in_app_or in Hin. tauto.
 Qed.
 
 Lemma okT_bind' {A B} k1 k2 (m : TM A) (f : A -> TM B) ts :
@@ -44,10 +46,17 @@ Lemma okT_bind' {A B} k1 k2 (m : TM A) (f : A -> TM B) ts :
 Proof. intros H1 H2. apply okT_bind; auto. Qed.
 
 Lemma okT_next ts : okT 1 t_next ts.
-Proof. unfold okT, t_next. destruct ts as [|t r]; [discriminate|]. exists [t]. auto. Qed.
+Proof.
+  unfold okT, t_next. destruct ts as [|t r]; [discriminate|].
+  destruct t; try discriminate; eexists [_]; (split; [reflexivity|split; [apply le_n|]]);
+    intros [H|[]]; discriminate.
+Qed.
 
 Lemma okT_peek ts : okT 0 t_peek ts.
-Proof. unfold okT, t_peek. destruct ts as [|t r]; [discriminate|]. exists []. auto. Qed.
+Proof.
+  unfold okT, t_peek. destruct ts as [|t r]; [discriminate|].
+  destruct t; try discriminate; exists []; (split; [reflexivity|split; [apply le_n|intros []]]).
+Qed.
 
 Lemma okT_geom_tag ts : okT 1 next_geom_tag ts.
 Proof.
@@ -87,7 +96,7 @@ Qed.
 Lemma strconv_parse_total t :
   (exists f, strconv_parse t = Ok f) \/ strconv_parse t = Err ESyntax.
 Proof.
-  destruct t as [l|b]; cbn [strconv_parse]; [|left; eauto].
+  destruct t as [l|b|]; cbn [strconv_parse]; [|left; eauto|right; reflexivity].
   destruct (leqb _ _); [left; eauto|]. destruct (_ || _); [left; eauto|right; reflexivity].
 Qed.
 
@@ -226,14 +235,14 @@ Lemma wkt_parse_no_panic_lemma : forall ts, is_panic (parse ts) = false.
 Proof.
   intros ts. pose proof (okT_parse_geom (S (length ts)) ts (le_n _)) as H.
   unfold okT in H. unfold parse.
-  destruct (parse_geom (S (length ts)) ts) as [[g [|t r]]|e|p]; auto. contradiction.
+  destruct (parse_geom (S (length ts)) ts) as [[g [|[] r]]|e|p]; auto. contradiction.
 Qed.
 
 Lemma wkt_parse_fuel_enough_lemma : forall ts, parse ts <> Err EFuel.
 Proof.
   intros ts. pose proof (okT_parse_geom (S (length ts)) ts (le_n _)) as H.
   unfold okT in H. unfold parse.
-  destruct (parse_geom (S (length ts)) ts) as [[g [|t r]]|e|p]; try discriminate. congruence.
+  destruct (parse_geom (S (length ts)) ts) as [[g [|[] r]]|e|p]; try discriminate. congruence.
 Qed.
 
 (* the parser proper never looks past the tokens it is given, and reads at least the tag *)
@@ -241,7 +250,26 @@ Lemma wkt_parse_geom_consumes_lemma : forall ts g r,
   parse_geom (S (length ts)) ts = Ok (g, r) -> exists used, ts = used ++ r /\ (1 <= length used)%nat.
 Proof.
   intros ts g r E. pose proof (okT_parse_geom (S (length ts)) ts (le_n _)) as H.
-  unfold okT in H. rewrite E in H. exact H.
+  unfold okT in H. rewrite E in H. destruct H as [u [Eu [Lu _]]]. exists u. auto.
+Qed.
+
+(* ... and never steps over a lexical error: the consumed tokens are free of the mark TBad *)
+Lemma wkt_parse_geom_no_bad_lemma : forall ts g r,
+  parse_geom (S (length ts)) ts = Ok (g, r) -> exists used, ts = used ++ r /\ ~ In TBad used.
+Proof.
+  intros ts g r E. pose proof (okT_parse_geom (S (length ts)) ts (le_n _)) as H.
+  unfold okT in H. rewrite E in H. destruct H as [u [Eu [_ Bu]]]. exists u. auto.
+Qed.
+
+(* A token stream with a lexical error in it is never accepted: the parser fails before the mark,
+   or at it, or the end-of-input check finds it (or a token) behind the geometry. *)
+Lemma wkt_parse_bad_rejected_lemma : forall ts g, In TBad ts -> parse ts <> Ok g.
+Proof.
+  intros ts g Hin. unfold parse.
+  destruct (parse_geom (S (length ts)) ts) as [[g' r]|e|p] eqn:E; try discriminate.
+  destruct (wkt_parse_geom_no_bad_lemma ts g' r E) as [u [Eu Bu]].
+  destruct r as [|[] r']; try discriminate.
+  rewrite app_nil_r in Eu. subst u. contradiction.
 Qed.
 
 (* ------------------------------------------------------------------ lexer + parser *)
@@ -249,7 +277,7 @@ Lemma lex_go_total : forall s cur, is_panic (lex_go cur s) = false /\ lex_go cur
 Proof.
   induction s as [|c r IH]; intros cur; cbn [lex_go].
   - split; [reflexivity|discriminate].
-  - destruct c as [a|b].
+  - destruct c as [a|b|]; [| |split; [reflexivity|discriminate]].
     + destruct (is_letter a); [apply IH|].
       destruct (is_digit a).
       { destruct cur; [split; [reflexivity|discriminate]|apply IH]. }
